@@ -269,9 +269,11 @@ def fastq_bytes(pairs, k, cfg):
 
 def write_inputs(d, lib, pairs, mates, gz=True, cfg=None):
     files = []
+    per_mate = (cfg or {}).get('gz_mates') or []      # mate files of one pair may be stored differently (gz / plain)
     for k in range(mates):
-        p = os.path.join(d, '%s_R%d.fastq%s' % (lib, k + 1, '.gz' if gz else ''))
-        with (gzip.open(p, 'wb') if gz else open(p, 'wb')) as f:
+        z = per_mate[k] if k < len(per_mate) else gz
+        p = os.path.join(d, '%s_R%d.fastq%s' % (lib, k + 1, '.gz' if z else ''))
+        with (gzip.open(p, 'wb') if z else open(p, 'wb')) as f:
             f.write(fastq_bytes(pairs, k, cfg or {}))
         files.append(p)
     return files
@@ -587,12 +589,16 @@ def autodetect(loader, pairs, cfg, workdir, mxa=1):
         m = cfg['mates']
         libs = {cfg['lib']: dict(('%s_L%03d' % (cfg['lib'], li + 1), dict(('R%d' % (k + 1), [files[li * m + k]]) for k in range(m)))
                                  for li in range(len(lanes)))}
-    with contextlib.redirect_stdout(io.StringIO()):
-        processed, ylds = loader.dmx.detectLibYields(libs, testReads=2000, maxAutoDetectMethods=mxa, minAutoDetectPct=2, verbose=False)
-        sel = loader.dmx.selectedStrategiesBasedOnYield(ylds[cfg['lib']]['processedReadPairs'], ylds[cfg['lib']]['strategyYields'],
-                                                        maxAutoDetectMethods=mxa, minAutoDetectPct=2)
+    try:
+        with contextlib.redirect_stdout(io.StringIO()), contextlib.redirect_stderr(io.StringIO()):
+            processed, ylds = loader.dmx.detectLibYields(libs, testReads=2000, maxAutoDetectMethods=mxa, minAutoDetectPct=2, verbose=False)
+            sel = list(loader.dmx.selectedStrategiesBasedOnYield(ylds[cfg['lib']]['processedReadPairs'],
+                                                                 ylds[cfg['lib']]['strategyYields'],
+                                                                 maxAutoDetectMethods=mxa, minAutoDetectPct=2))
+    except Exception:       # the probe pass of the code under test crashed: no prediction, the caller names the strategy itself
+        sel = None
     shutil.rmtree(d, True)
-    return list(sel)
+    return sel
 
 
 def run_cli(names, pairs, cfg, workdir):
@@ -618,7 +624,7 @@ def run_cli(names, pairs, cfg, workdir):
 
 def run_event(tid, grp, entry, names, pairs, acc, cfg, obs, extra=None):
     e = {'ev': 'run', 'tid': tid, 'grp': grp, 'entry': entry, 'mates': cfg['mates'], 'hasRej': cfg['hasRej'],
-         'percell': cfg['percell'], 'maxpairs': cfg['maxpairs'], 'gz': bool(cfg.get('gz', True)), 'fh': int(cfg.get('fh', 500)), 'prune': int(cfg.get('prune') or 0),
+         'percell': cfg['percell'], 'maxpairs': cfg['maxpairs'], 'gz': bool(cfg.get('gz', True)), 'gz_mates': [bool(x) for x in cfg.get('gz_mates') or []], 'fh': int(cfg.get('fh', 500)), 'prune': int(cfg.get('prune') or 0),
          'prior': cfg.get('prior') or '', 'prior_k': int(cfg.get('prior_k') or 0), 'lanes': int(cfg.get('lanes', 1)),
          'lane_split': int(cfg.get('lane_split', 0)), 'lane_splits': [int(x) for x in cfg.get('lane_splits') or []], 'stale_dir': bool(cfg.get('stale_dir')),
          'eol': cfg.get('eol') or 'lf', 'nofinalnl': bool(cfg.get('nofinalnl')), 'trailing_blank': bool(cfg.get('trailing_blank')), 'nofile': int(cfg.get('nofile') or 0),
@@ -675,6 +681,8 @@ class Recorder:
 def configs(rng, lib, mates, n, full):
     base = {'lib': lib, 'mates': mates, 'gz': rng.random() < 0.7, 'eol': rng.choice(['lf', 'lf', 'crlf']),
             'nofinalnl': rng.random() < 0.4, 'trailing_blank': rng.random() < 0.2, 'nolog': rng.random() < 0.15}
+    if mates == 2 and rng.random() < 0.35:
+        base['gz_mates'] = rng.choice([[True, False], [False, True]])      # R1 .fastq.gz with R2 .fastq, or the reverse
     out = [dict(base, hasRej=True, percell=False, maxpairs=0),
            dict(base, hasRej=False, percell=False, maxpairs=0)]
     out.append(dict(base, hasRej=rng.random() < 0.7, percell=True, maxpairs=0, fh=rng.choice([0, 1, 2, 500]),
@@ -805,7 +813,7 @@ def main():
             n = rng.choice([0, 1, 1, 2, 3])
             mates = rng.choice([1, 2])
             pairs = make_library(rng, loader, strategies, n, mates, focus=0)
-            base = {'lib': rng.choice(['TINY', '']), 'mates': mates, 'gz': rng.random() < 0.5, 'eol': rng.choice(['lf', 'crlf']),
+            base = {'lib': rng.choice(['TINY', '']), 'mates': mates, 'gz_mates': rng.choice([[], [True, False], [False, True]]) if mates == 2 else [], 'gz': rng.random() < 0.5, 'eol': rng.choice(['lf', 'crlf']),
                     'nofinalnl': rng.random() < 0.5}
             rec.group(loader, [name], pairs, [dict(base, hasRej=True, percell=False, maxpairs=0),
                                               dict(base, hasRej=True, percell=rng.random() < 0.5, maxpairs=max(1, n)),
@@ -901,6 +909,8 @@ def main():
                 cfg.update(prior='other')
             elif i % 4 == 0:
                 cfg.update(lanes=2, lane_split=rng.randint(1, n - 1), percell=True, maxpairs=rng.choice([0, rng.randint(1, n)]))
+            if mates == 2 and i % 3 == 1:
+                cfg['gz_mates'] = [[True, False], [False, True]][(i // 3) % 2]
             if i in (0, 4, 7, 11):
                 cfg['cli_reverse'] = True       # file arguments in reverse order
             if i in (2, 6, 10):
@@ -908,7 +918,7 @@ def main():
             use = [name]
             if i in (0, 1, 3, 6, 9, 12, 15):    # no -use: probe pass over the library, then the best scoring strategy
                 sel = autodetect(loader, pairs, cfg, workdir)
-                if len(sel) == 1:
+                if sel is not None and len(sel) == 1:
                     cfg['cli_auto'], use = True, sel
             rec.group(loader, use, pairs, [cfg], workdir, entry='cli')
 
@@ -965,13 +975,16 @@ def main():
                 n = 60
             cfg = {'lib': 'OPTS', 'mates': mates, 'hasRej': j % 3 != 2, 'percell': j % 2 == 1, 'fh': rng.choice([0, 1, 500]),
                    'maxpairs': 0 if j % 4 else rng.randint(1, n), 'cli': {}}
+            if mates == 2 and j % 3 == 2:
+                cfg['gz_mates'] = [[True, False], [False, True]][(j // 3) % 2]
             use = [s.shortName for s in strategies]
             if var in ('se_auto', 'none_selected', 'mxa2'):
                 mxa = 2 if var == 'mxa2' else 1
                 if mxa == 2:
                     cfg['cli']['mxa'] = 2
-                use = autodetect(ld, pairs, cfg, workdir, mxa=mxa)
-                cfg['cli_auto'] = True
+                sel = autodetect(ld, pairs, cfg, workdir, mxa=mxa)
+                if sel is not None:
+                    use, cfg['cli_auto'] = sel, True
             elif var in ('dup_args', 'filelist'):
                 cfg['cli'][var] = True
             elif var == 'g0':
@@ -1003,7 +1016,7 @@ def replay(rec, case_path, workdir):
               'm': [{'h': h, 'seq': m['seq'], 'plus': pl, 'qual': m['qual']}
                     for h, pl, m in zip(p['h'], p.get('p') or ['+'] * len(p['h']), p['m'])]}
              for p, c in zip(ev['inp'], ev['classes'])]
-    cfgs = [{'lib': e['lib'], 'mates': e['mates'], 'gz': e.get('gz', True), 'fh': e.get('fh', 500), 'prune': e.get('prune', 0),
+    cfgs = [{'lib': e['lib'], 'mates': e['mates'], 'gz': e.get('gz', True), 'gz_mates': e.get('gz_mates') or [], 'fh': e.get('fh', 500), 'prune': e.get('prune', 0),
              'prior': e.get('prior') or None, 'prior_k': e.get('prior_k', 0), 'lanes': e.get('lanes', 1),
              'lane_split': e.get('lane_split', 0), 'lane_splits': e.get('lane_splits') or [], 'stale_dir': e.get('stale_dir', False), 'eol': e.get('eol', 'lf'),
              'nofinalnl': e.get('nofinalnl', False), 'trailing_blank': e.get('trailing_blank', False), 'cli_auto': e.get('cli_auto', False),
